@@ -67,3 +67,22 @@ func debugRange(p *Program, arg string) int {
 	}
 	return 0
 }
+
+// debugAccesses lists E2 accesses whose field contains arg.
+func debugAccesses(p *Program, arg string) int {
+	e := sharedE2(p)
+	fmt.Println("state types:", len(e.stateTypes))
+	for _, a := range e.accesses {
+		if strings.Contains(a.field, arg) {
+			fmt.Printf("%s %s in %s at %s classes=%v locks=%v\n", a.kind(), a.field, shortFn(a.fn), p.pos(instrPos(a.instr)), a.classes, a.locks)
+		}
+	}
+	n := 0
+	for fn, cl := range e.classOf {
+		if strings.Contains(fn.String(), arg) {
+			fmt.Println("class", shortFn(fn), cl)
+			n++
+		}
+	}
+	return 0
+}
